@@ -81,7 +81,7 @@ def resolve(spec, ctx, cache):
     elif spec['kind'] == 'mm' and 'gen_seed' in spec:
         layouts, _, _, info = _c16.build({'gen_seed': spec['gen_seed']})
         lay = layouts[spec['gen_seed'] % len(layouts)]
-        out = {'kind': 'mm', 'text': lay['text'], 'target': 'goal', 'tmv': info['tmv']}
+        out = {'kind': 'mm', 'text': ambiguous_variables(lay['text'], spec['gen_seed']), 'target': 'goal', 'tmv': info['tmv']}
     elif spec['kind'] == 'k' and 'k_seed' in spec:
         import random as _r
         from . import c20 as _c20
@@ -94,6 +94,24 @@ def resolve(spec, ctx, cache):
         out = {'kind': 'mm', 'text': open(os.path.join(REPO, 'generation', 'mm-benchmarks', spec['shipped_mm'])).read(), 'target': 'goal', 'tmv': 1}
     cache[key] = out
     return out
+
+
+def ambiguous_variables(text, seed):
+    """A third of the generated databases also declare two or three `#Variable` variables (element-or-set: the converter
+    resolves them per statement, over a *set* of names) and one or two axioms that mention several of them."""
+    import random as _r
+    rng = _r.Random(seed ^ 0xa5a5a5)
+    if rng.random() >= 0.34 or '\\imp' not in text:
+        return text
+    names = rng.sample(['xX', 'yY', 'zZ', 'aA', 'wW', 'Bb'], rng.choice([2, 3]))
+    lines = ['$c #Variable $.', '$v ' + ' '.join(names) + ' $.'] + ['%s-is-var $f #Variable %s $.' % (n, n) for n in names]
+    lines.append('var-is-pattern $a #Pattern %s $.' % names[0])
+    for k in range(rng.choice([1, 2])):
+        vs = [rng.choice(names) for _ in range(3)]
+        if len(set(vs)) < 2: vs[1] = next(n for n in names if n != vs[0])
+        lines.append('amb-ax-%d $a |- ( \\imp %s ( \\imp %s %s ) ) $.' % (k, vs[0], vs[1], vs[2]))
+    head, sep, tail = text.rpartition('goal $p')
+    return head + '\n'.join(lines) + '\n' + sep + tail
 
 
 def execute(sc, ctx):
